@@ -201,6 +201,7 @@ fn c03_run_doc(text: &str) -> CaseResult {
         nontrivial: formatted.as_deref().map(|o| o != text).unwrap_or(true),
         outcome: if failures.is_empty() { "ok".into() } else { format!("panic:{}", failures[0].site) },
         failures,
+        ..Default::default()
     }
 }
 
@@ -253,7 +254,7 @@ impl Engine for C03 {
                 }],
                 None => r.failures,
             };
-            return CaseResult { transitions: 1, nontrivial: true, outcome: if failures.is_empty() { "ok".into() } else { format!("{}:{}", failures[0].clause, failures[0].site) }, failures };
+            return CaseResult { transitions: 1, nontrivial: true, outcome: if failures.is_empty() { "ok".into() } else { format!("{}:{}", failures[0].clause, failures[0].site) }, failures, ..Default::default() };
         }
         if let Some(rest) = case.strip_prefix("\u{1}scale!:") {
             let parts: Vec<&str> = rest.split(':').collect();
@@ -313,7 +314,7 @@ fn c03_run_scale(text: &str) -> CaseResult {
         }
         failures.push(panic_failure(p.clone(), &[], entry));
     }
-    CaseResult { transitions: tr, nontrivial: true, outcome: if failures.is_empty() { "ok".into() } else { format!("panic:{}", failures[0].site) }, failures }
+    CaseResult { transitions: tr, nontrivial: true, outcome: if failures.is_empty() { "ok".into() } else { format!("panic:{}", failures[0].site) }, failures, ..Default::default() }
 }
 
 // ====================================================================== C01
@@ -405,7 +406,7 @@ impl Engine for C01 {
                 }
             }
         }
-        CaseResult { transitions: tr, nontrivial, outcome, failures }
+        CaseResult { transitions: tr, nontrivial, outcome, failures, ..Default::default() }
     }
 }
 
@@ -501,6 +502,6 @@ impl Engine for C02 {
         }
         let _ = json!(null);
         let _: HashMap<String, String> = HashMap::new();
-        CaseResult { transitions: tr, nontrivial, outcome, failures }
+        CaseResult { transitions: tr, nontrivial, outcome, failures, ..Default::default() }
     }
 }
